@@ -1015,12 +1015,15 @@ def typed_stream(cases, rng, exe, known_ids):
             continue
         elems = [[ta[1]]] if ta[0] == "S" else ta[1]
         # sampled run-time members: (choice of alternative per position, object per position)
+        from pyanalyze.format_strings import StarConversionSpecifier
+
+        serials = [isinstance(x, StarConversionSpecifier) for x in fs.get_serial_specifiers()]
         combos = []
         for _ in range(60):
             alts = [rng.randrange(len(u)) for u in elems]
             objs = [rng.choice(samples_of(u[k])) for u, k in zip(elems, alts)]
-            if any(type(o) is int and abs(o) > 2000 for o in objs) and "*" in (t.decode("latin-1") if isinstance(t, bytes) else t):
-                continue
+            if any(type(o) is int and abs(o) > 2000 for o, sp in zip(objs, serials) if sp):
+                continue  # a huge '*' width would be allocated
             arg = objs[0] if ta[0] == "S" else tuple(objs)
             if ta[0] == "S" and isinstance(arg, (tuple, dict, list)):
                 continue
@@ -1043,8 +1046,8 @@ def typed_stream(cases, rng, exe, known_ids):
                 for pos, u in enumerate(elems):
                     for k in range(len(u)):
                         sel = [c for c in combos if c[0][pos] == k]
-                        if sel and all(c[2] for c in sel):
-                            ok = True
+                        if not sel or all(c[2] for c in sel):
+                            ok = True  # (no sampled member of this alternative could be executed: inconclusive)
             if not ok:
                 if crange and "ECRange" in acc and "C17-c-range-str" in known_ids and agrees:
                     _bump(res["known"], "C17-c-range-str")
